@@ -501,4 +501,88 @@ theorem Codec.readFrame_spec (c : Codec) (t : Transport) (maxSize : Option Nat) 
           obtain ⟨q, hq⟩ := herr _ hr
           cases hq
 
+/-! ### the codec never reports `ConnectionClosed`, so `checkConnectionReset` only ever sees the
+reset case -/
+
+theorem codec_bufferFrame_ne_cc (c : Codec) (t : Transport) (f : Frame) :
+    (c.bufferFrame t f).2.2 ≠ Res.err Err.connectionClosed := by
+  have h := (Codec.bufferFrame_spec c t f).cases
+  intro hc
+  rw [hc] at h
+  rcases h with ⟨h, _⟩ | ⟨h | ⟨k, h⟩, _⟩ <;> cases h
+
+theorem codec_readFrame_ne_cc (c : Codec) (t : Transport) (m : Option Nat) (u a : Bool) :
+    (c.readFrame t m u a).2.2 ≠ Res.err Err.connectionClosed :=
+  (Codec.readFrame_spec c t m u a).notClosed
+
+/-- the reset-only reading of `check_connection_reset`: what it does to every result other than
+`Err(ConnectionClosed)` -/
+def ccrOld {α : Type} (w : World) (r : Res α) : World × Res α :=
+  match r with
+  | .err (.io .reset) =>
+    if !w.c.state.canRead then (w.setState .terminated, .err .connectionClosed)
+    else (w, r)
+  | _ => (w, r)
+
+theorem ccrOld_eq {α : Type} (w : World) (r : Res α) (h : r ≠ .err .connectionClosed) :
+    w.checkConnectionReset r = ccrOld w r := by
+  unfold World.checkConnectionReset ccrOld
+  cases r with
+  | ok a => rfl
+  | panic s => rfl
+  | err e =>
+    cases e with
+    | io k =>
+      cases k with
+      | reset => cases w.c.state.canRead <;> rfl
+      | wouldBlock => rfl
+      | intr => rfl
+      | other => rfl
+    | connectionClosed => exact absurd rfl h
+    | alreadyClosed => rfl
+    | capacity a b => rfl
+    | protocol p => rfl
+    | writeBufferFull f => rfl
+    | utf8 => rfl
+
+/-- under `r ≠ Err(ConnectionClosed)` the definition is the reset-only one (`ccrOld` unfolds to
+exactly that `match`) -/
+theorem World.checkConnectionReset_of_ne_cc {α : Type} (w : World) (r : Res α)
+    (h : r ≠ .err .connectionClosed) : w.checkConnectionReset r = ccrOld w r :=
+  ccrOld_eq w r h
+
+theorem World.checkConnectionReset_cc {α : Type} (w : World) :
+    w.checkConnectionReset (.err .connectionClosed : Res α) =
+      (w.setState .terminated, .err .connectionClosed) := rfl
+
+/-- `World.bufferFrame` with the reset-only check -/
+theorem World.bufferFrame_old (w : World) (f : Frame) :
+    w.bufferFrame f =
+      (let (w, f) : World × Frame := match w.c.role with
+        | .server => (w, f)
+        | .client =>
+          let (w, m) := w.nextMask
+          (w, { f with header := { f.header with mask := some m } })
+      let (codec, t, r) := w.c.codec.bufferFrame w.t f
+      let w := w.setCodec codec t
+      let w := if r.isWriteBufferFull then w else { w with queued := w.queued ++ [f] }
+      ccrOld w r) := by
+  unfold World.bufferFrame
+  cases w.c.role with
+  | server => exact ccrOld_eq _ _ (codec_bufferFrame_ne_cc _ _ _)
+  | client => exact ccrOld_eq _ _ (codec_bufferFrame_ne_cc _ _ _)
+
+/-- `World.readMessageFrame` with the reset-only check -/
+theorem World.readMessageFrame_old (w : World) :
+    w.readMessageFrame =
+      (let (codec, t, r) :=
+        w.c.codec.readFrame w.t w.c.cfg.maxFrame (w.c.role == .server) w.c.cfg.acceptUnmasked
+      let w := w.setCodec codec t
+      andThen (ccrOld w r) fun w of =>
+        match of with
+        | some frame => w.onFrame frame
+        | none => w.onEof) := by
+  unfold World.readMessageFrame
+  exact congrArg (fun x => andThen x _) (ccrOld_eq _ _ (codec_readFrame_ne_cc _ _ _ _ _))
+
 end WsProofs
